@@ -408,6 +408,9 @@ func sizeClass(n int) string {
 
 // runEnv: one real server, one real client with handlers for `profile`, the plans issued by `conc` goroutines.
 func runEnv(c *hk.Ctx, cfg hk.SrvCfg, profileName string, profile []string, plans []*plan, conc int) {
+	if profile == nil {
+		profile = []string{}
+	}
 	g := newRegistry()
 	f := hk.NewFixture(cfg)
 	defer f.Close()
